@@ -25,6 +25,12 @@ func c01(p *Prog, r *Report) {
 	r.Rule(R2, "issuer response layout = what the client splits and parses (4 protocols)", 7)
 	r.Rule(R3, "token input = type constant || nonce || SHA-256(challenge) || key id; token = decode(state token input || finalize output); state pinned by the constructors", 30)
 	r.Rule(R4, "client and issuer use the same suite / hash / info strings / labels / exported-secret length", 8)
+	const R6 = "C01.origin-name-survives-padding"
+	r.Rule(R6, "type 3: the issuer's unpadding inverts the client's padding (padded length 32*max(1,ceil(n/32)), name || zeros; unpadding strips exactly the trailing zeros) - shared with C20", 38)
+	if pad, unpad := anchor(p, r, R6, "~/tokens/type3.padOriginName"), anchor(p, r, R6, "~/tokens/type3.unpadOriginName"); pad != nil && unpad != nil {
+		c20Pad(p, r, R6, pad)
+		c20Unpad(p, r, R6, unpad)
+	}
 	r.Rule(R5, "the request field holds the library output whose length the decoder's fixed width names (compressed element / blinded message)", 6)
 
 	ne1, ok1 := p.constInt("~/tokens/type1", "Ne")
